@@ -19,7 +19,7 @@ def nontrivial(s, run):
 def run(ctx):
     srvflow.run_check(
         ctx, design=DESIGN, edge_cfgs=EDGES, negs=NEGS, invariants=INV, corpus=["server_cmd.ndjson"],
-        thorough_design=THOROUGH, nontrivial=nontrivial, random_flavour='cmd', max_paths_quick=700,
+        thorough_design=THOROUGH, nontrivial=nontrivial, random_flavour=('cmd', 'mix'), random_quick=240, max_paths_quick=700,
         rule="schedules = edge cover of the command/error config (pause/resume/stop, fatal and per-connection accept errors, "
              "deadline ticks; TCP + UDS) + NEG counterexamples + corpus; TLC checks on observed states: no dispatch in an "
              "iteration that starts and ends paused, UDS path present and connects succeed while running, and at quiescence "
